@@ -33,6 +33,8 @@ QUERIES = qpool.STANDARD[:25] + [
     # the spellings themselves as member names and string contents (quoted, they are data), and names that begin like a token
     "$['$$', '@@', '##', '__', '~~', '^^', '<|>', '<&>', '%%', '*~']", "$[?@.a == '<|>' || @.b == '$$' || @.s == '__']", "$['_x']['__y'].a", "$[?@['~~'] == _['$@']]",
     "$['|'] | $['&']", "$[?@.a == '%' && # != '+']",
+    # every identifier as an argument of a function
+    "$[?match(#, 'a.*')]", "$.*[?search(#, 'a') || length(#) > 1]", "$[?length(_.list) == 2 && value(@.a) == value(_.v)]", "$[?count(^[0].*) > 1]", "$[?length(@) > 1 && count($..*) > 2]",
 ]
 
 
